@@ -9,7 +9,7 @@ from props.c10 import stack_sig, IDENT, SNAP
 
 LEVEL = "proof"
 MANIFEST = dict(
-    text="Lean 4: a macro-step machine of the manager over facts regenerated from the source (the sequence pump's locate / connect / retry-after-not-found rules, the  Session 4: the guard of the retry-exceeded branch is a generated fact (retryExceededNeedsSpa), abandoned_attempt_is_ignored is a theorem (the late failure report of a connection attempt abandoned by a reset cannot move a manager without a spa; genuine defect D8c, fix 4611c09), and the script reset-in-last-retry (resets during the last retry of a failing handshake request) is part of every run. Also: only_disconnect_closes_the_protocol over all 58 regenerated coroutine skeletons (reporting an error never silences the ping loop) and a script with an RF-error period long enough for one connection to count more than 50 reports. Also a network mode in which everything but pings gets RFERR (an error state reached without missing a ping) and every_answered_ping_is_announced over the ping loop skeleton."
+    text="Lean 4: a macro-step machine of the manager over facts regenerated from the source (the sequence pump's locate / connect / retry-after-not-found rules, the "
          "ping-received reset rule, where failure events land, the LOCATING_FINISHED guard, whether the pump survives exceptions). Its record space is finite: one-step "
          "facts are kernel evaluations over the WHOLE space, lifted by induction to fault scripts of any length: coherence of every reachable record; the FULL "
          "statement recovery_after_every_script (after ANY fault script - loss, blackouts, RF-error periods, resets at any moment incl. inside a discovery or inside "
@@ -18,7 +18,7 @@ MANIFEST = dict(
          "timing tables. Tie: translator facts + trace validation on the FULL real stack (manager + locator + spa + facade + real simulator, virtual time) under seeded "
          "fault scripts (blackouts around each timeout, lossy and RF-error phases, selective loss, trigger phases, resets swept over the discovery / reconnect windows, "
          "a lost partial update under continuing traffic): the observed event stream is mapped to macro inputs, the model must reproduce the manager's record after "
-         "each, the recovery time must respect the bound, the facade must mirror the spa, every blackout that begins in CONNECTED must be reported in time.",
+         "each, the recovery time must respect the bound, the facade must mirror the spa, every blackout that begins in CONNECTED must be reported in time. Session 4: the guard of the retry-exceeded branch is a generated fact (retryExceededNeedsSpa), abandoned_attempt_is_ignored is a theorem (the late failure report of a connection attempt abandoned by a reset cannot move a manager without a spa; genuine defect D8c, fix 4611c09), and the script reset-in-last-retry (resets during the last retry of a failing handshake request) is part of every run. Also: only_disconnect_closes_the_protocol over all 58 regenerated coroutine skeletons (reporting an error never silences the ping loop) and a script with an RF-error period long enough for one connection to count more than 50 reports. Also a network mode in which everything but pings gets RFERR (an error state reached without missing a ping) and every_answered_ping_is_announced over the ping loop skeleton.",
     note="partial: the timed model abstracts discovery / request / transfer phases to the bounds proved for them elsewhere, so a delay INSIDE a phase that those properties "
          "allow is seen only by the traces; real timer skew is outside.",
     technique="Lean 4 kernel evaluation over a finite macro-step machine built from source-extracted facts, lifted by induction; trace validation of the whole real stack",
